@@ -9,7 +9,7 @@ PROP = {
     "rule": "cases = documents (corpus snippets, mutated corpus, soup, non-ASCII/CRLF) x 10 sampled token boundaries + 8 out-of-range / reversed positions (character = len+1, len+100, u32::MAX; line = count, count+1, u32::MAX) x 16 position-taking methods (hover, definition, implementation, references, prepareRename, rename, completion, signatureHelp, documentHighlight, selectionRange, inlineValue, prepareCallHierarchy, codeAction, rangeFormatting, onTypeFormatting, inlayHint); "
             "distinct = FNV of the document; non-trivial = >= 50 requests were answered for it",
     "min_nontrivial": {"quick": 2500, "thorough": 100000},
-    "max_secs": {"quick": 600, "thorough": 1200},
+    "max_secs": {"quick": 600, "thorough": 1500},
     "require_clauses": ["requests-answered", "out-of-range-requests", "family:corpus", "family:corpus-mutant", "family:soup"],
     "assumptions": COMMON_ASSUME + ["a handler panic is observed through the process-wide panic hook (the server itself answers such a request with InternalError)"],
     "level_text": "Real handlers on real analysis state; ~180k (quick) requests, each must be answered and must not panic.",
